@@ -416,7 +416,9 @@ def case_st(draw, series=False):
             su["cap"] = [draw(cg.logu(0.3, 4.0, 3)), draw(cg.logu(0.5, 8.0, 3))]
         if related:
             # sites per mole of phase / reactant and m2 per mole
-            su["rel_prop"] = [draw(cg.logu(0.001, 0.5, 3)) * (1.0 if j == 0 else 0.05) for j in range(len(sl))]
+            # (time-series leg: sites >= 1e-6 mol; with smaller surfaces and an explicit layer the engine can spend minutes before
+            # it gives up on a case)
+            su["rel_prop"] = [draw(cg.logu(0.01 if series else 0.001, 0.5, 3)) * (1.0 if j == 0 else 0.05) for j in range(len(sl))]
             su["rel_area"] = draw(cg.logu(1e3, 1e5, 3))
         surfs.append(su)
     fe = bool(rel) and rel["phase"] in ("Fe(OH)3(a)", "Goethite", "Ferrihydrite") and draw(st.booleans())
@@ -458,13 +460,13 @@ def case_st(draw, series=False):
                 # growth only from elements the solution holds: the hydroxide of the background cation, at most 30 % of it in total
                 rel["formula"] = bg[0] + "OH"
                 rel["k"] = _r(-math.log(1.0 + f) / (rel["time"] / nst), 6)
-                rel["m0"] = _r(min(draw(cg.logu(1e-5, 1e-3, 3)), 0.3 * bg[1] / ((1.0 + f) ** nst - 1.0)), 3)
+                rel["m0"] = _r(min(draw(cg.logu(1e-4, 1e-2, 3)), 0.3 * bg[1] / ((1.0 + f) ** nst - 1.0)), 3)
             else:
                 rel["k"] = _r(-math.log(1.0 - f) / (rel["time"] / nst), 6)
-                rel["m0"] = draw(cg.logu(1e-5, 1e-3, 3))
+                rel["m0"] = draw(cg.logu(1e-4, 1e-2, 3))
         else:
             rel["si"] = 0.0
-            rel["m0"] = draw(cg.logu(1e-5, 1e-3, 3))
+            rel["m0"] = draw(cg.logu(1e-4, 1e-2, 3))
             pf = phase_formula(inf, rel["phase"])
             if grow:
                 # the phase's own formula added to the solution precipitates: the phase grows by the fraction f per step
